@@ -258,6 +258,23 @@ func (c *Ctx) c03Cases(n int) []c03Case {
 			c.Rep.Count("eval-position-limits")
 		}
 	}
+	// the dump options render every instruction and every tree node before the run, outside any recover: programs
+	// that put extreme or unusual operands into each family of instruction (literal indices on locals and globals,
+	// big and negative constants, attribute access, calls with many arguments, maps, ranges, switches, conversions)
+	for _, src := range []string{
+		"func f() int { a := []int{1}; return a[100000] }; f()", "func f() int { a := []int{1}; return a[-1] }; f()",
+		"func f() { m := map[int]int{}; m[123456] = 7; m[-5] = 1; println(m[123456], m[-5], m[70000]) }; f()",
+		"func f() { var a []int; a[70000] = 1 }; f()", "x := 3000000000; y := -2147483648; z := []int{1}; z[99999]",
+		"type T struct { A int }; func (t *T) M(a, b, c, d, e, f, g int) int { return t.A }; func f() { t := &T{}; t.A = 99999; t.M(1, 2, 3, 4, 5, 6, 7) }; f()",
+		"func f() { s := \"x\"; for i, c := range s { switch c { case 100000, -3: println(i) } }; b := []byte(s); r := []rune(s); println(len(b), len(r), float64(100000), int8(-7)) }; f()",
+		"func v(xs ...int) int { return len(xs) }; func f() int { ys := []int{1, 2}; return v(ys...) + v() + v(1, 2, 3, 4, 5, 6, 7, 8, 9) }; f()",
+		"const K = 1 << 30; var g = map[string][]int{\"k\": {K, -K}}; func f() int { return g[\"k\"][1] + K }; f()",
+	} {
+		for o := 0; o < 16; o++ {
+			cases = append(cases, c03Case{Kind: "eval", Src: src, Opts: o})
+			c.Rep.Count("eval-dump-rendering")
+		}
+	}
 	for i := 0; i < n; i++ {
 		k := c03Case{Opts: r.Intn(16)}
 		switch kind := r.Intn(100); {
